@@ -260,6 +260,22 @@ var DummyReq = func() *http.Request {
 	return r
 }
 
+// WireLower is Wire with the 2nd, 3rd, ... line of every repeated field name spelled in lower case
+// (field names are case-insensitive: the parser files all spellings under the canonical key, in
+// line order). Build mode "l".
+func (a *Abs) WireLower() []byte {
+	b := *a
+	b.Hdr = append([]KV(nil), a.Hdr...)
+	seen := map[string]bool{}
+	for i, h := range b.Hdr {
+		if seen[h.K] {
+			b.Hdr[i].K = strings.ToLower(h.K)
+		}
+		seen[h.K] = true
+	}
+	return b.Wire()
+}
+
 // ParseRequest builds the request the way the proxy gets it: http.ReadRequest on the wire.
 func (a *Abs) ParseRequest() (*http.Request, error) {
 	return http.ReadRequest(bufio.NewReader(bytes.NewReader(a.Wire())))
@@ -578,6 +594,10 @@ func (a *Abs) BuildRequest(mode string) (*http.Request, string) {
 		if err = mbody.NewModifier(a.Body, a.Get("Content-Type")).ModifyRequest(req); err != nil {
 			return nil, "body.Modifier: " + err.Error()
 		}
+	} else if mode == "l" {
+		if req, err = http.ReadRequest(bufio.NewReader(bytes.NewReader(a.WireLower()))); err != nil {
+			return nil, "wire does not parse: " + err.Error()
+		}
 	} else if req, err = a.ParseRequest(); err != nil {
 		return nil, "wire does not parse: " + err.Error()
 	}
@@ -614,6 +634,10 @@ func (a *Abs) BuildResponse(mode string, req *http.Request) (*http.Response, str
 		}
 		if err = mbody.NewModifier(a.Body, a.Get("Content-Type")).ModifyResponse(res); err != nil {
 			return nil, "body.Modifier: " + err.Error()
+		}
+	} else if mode == "l" {
+		if res, err = http.ReadResponse(bufio.NewReader(bytes.NewReader(a.WireLower())), req); err != nil {
+			return nil, "wire does not parse: " + err.Error()
 		}
 	} else if res, err = a.ParseResponse(req); err != nil {
 		return nil, "wire does not parse: " + err.Error()
